@@ -12,6 +12,9 @@ mod queries;
 mod engine_run;
 mod c04;
 mod c09;
+mod c11;
+mod c15;
+mod c18;
 mod c17;
 mod tables;
 
@@ -40,6 +43,12 @@ fn main() {
             println!("{}", witness::tzprobe(args.get(2).map(|s| s.as_str()).unwrap_or("")));
             runq::cleanup_tmp();
         }
+        "c18child" => {
+            let seed: u64 = args.get(2).and_then(|s| s.parse().ok()).unwrap_or(1);
+            let n: usize = args.get(3).and_then(|s| s.parse().ok()).unwrap_or(10);
+            c18::child(seed, n);
+            runq::cleanup_tmp();
+        }
         "tzscan" => {
             let seed: u64 = args.get(2).and_then(|s| s.parse().ok()).unwrap_or(1);
             let n: usize = args.get(3).and_then(|s| s.parse().ok()).unwrap_or(1000);
@@ -64,6 +73,9 @@ fn main() {
                 "C03" => c03::run(&params),
                 "C04" => c04::run(&params),
                 "C09" => c09::run(&params),
+                "C11" => c11::run(&params),
+                "C15" => c15::run(&params),
+                "C18" => c18::run(&params),
                 "C10" => c10::run(&params),
                 "C12" => c12::run(&params),
                 "C17" => c17::run(&params),
